@@ -380,8 +380,13 @@ func (r *aRun) allDelivered() bool {
 		}
 	}
 	full, _ := r.readRecords()
+	hostileProfile := strings.HasPrefix(r.s.Profile, "c07")
 	for _, sr := range full {
 		if sr.rec.Drop || sr.rec.Raw != "" {
+			continue
+		}
+		// with hostile input the liveness question is whether the agent still works afterwards: the clean last connection
+		if hostileProfile && sr.client != len(r.s.Clients)-1 {
 			continue
 		}
 		if !acked[stampOf(sr)] {
